@@ -14,7 +14,8 @@ from contracts.common import FnObligation
 from vf import pyvc
 from vf.pyvc import Executor, Rec, SArr, Key, INT32_MAX, prove, zint, zreal, perm_axioms
 
-SRC = ["/repo/jinns/data/_DataGenerators.py", "/repo/jinns/data/_Batchs.py"]
+from vf.paths import R
+SRC = [R("/repo/jinns/data/_DataGenerators.py"), R("/repo/jinns/data/_Batchs.py")]
 DG = "jinns.data._DataGenerators:"
 META = dict(
     trusted_base=["Engine A: Python subset semantics and jnp / lax / tree_util models of vf/pyvc.py",
